@@ -6,5 +6,7 @@ export CARGO_NET_OFFLINE=true
 mkdir -p work evidence replays
 java -version 2>&1 | head -1
 (cd harness && cargo build --offline --workspace 2>&1 | tail -3)
+# feature builds used by the quick tier (valid-object bit)
+(cd harness && cargo build --offline -p gcdrive --features vo_bit 2>&1 | tail -1)
 if [ -x ./setup_extra.sh ]; then ./setup_extra.sh; fi
 echo "setup done"
